@@ -70,7 +70,9 @@ pub open spec fn same_kind(a: Val, b: Val) -> bool {
 // "restrict a value to a numeric range": `in lo..hi` — "must be between lo and hi", `in 0..` is ">= 0",
 // `in ..100` is "<= 100": both bounds INCLUSIVE, an absent bound does not constrain. An int range admits
 // only Int values, a float range only Float values.
-pub open spec fn arm_admits(arm: ConstraintValArm, val: Val) -> bool {
+pub open spec fn arm_admits(arm: ConstraintValArm, val: Val) -> bool
+    decreases arm
+{
     match arm {
         ConstraintValArm::Range(ConstraintBound::Int(min, max)) => match val {
             Val::Int(x) => (min matches Some(lo) ==> lo <= x) && (max matches Some(hi) ==> x <= hi),
@@ -80,14 +82,22 @@ pub open spec fn arm_admits(arm: ConstraintValArm, val: Val) -> bool {
             Val::Float(x) => (min matches Some(lo) ==> f64_ge(x, lo)) && (max matches Some(hi) ==> f64_le(x, hi)),
             _ => false,
         },
-        ConstraintValArm::Exact(e) => val_same(val, *e),
+        ConstraintValArm::Exact(e) => match *e {
+            // an alternative that is itself a constraint — a named constraint used inside an alternation,
+            // `constraint c = in 1..3; let x :: c | 9 = 2;` — admits what that constraint admits:
+            // "a named constraint behaves exactly like the same constraint written inline".
+            Val::Constraint(inner) => check_spec(inner, val),
+            _ => val_same(val, *e),
+        },
     }
 }
 
 // "`|` joins constraint arms": a value conforms iff some arm admits it. A constraint without arms is the
 // placeholder of a recursive constraint and admits everything (ir.rs: checked statically).
-pub open spec fn check_spec(cv: ConstraintVal, val: Val) -> bool {
-    cv.arms@.len() == 0 || exists|k: int| 0 <= k < cv.arms@.len() && arm_admits(#[trigger] cv.arms@[k], val)
+pub open spec fn check_spec(cv: ConstraintVal, val: Val) -> bool
+    decreases cv
+{
+    cv.arms@.len() == 0 || exists|k: int| 0 <= k < cv.arms.len() && arm_admits(#[trigger] cv.arms[k], val)
 }
 
 // A value "contains an empty constraint" (the self-reference placeholder): directly, or in a list
